@@ -51,6 +51,12 @@ class SimLock:
         tid = getattr(_tl, "tid", None)
         S = _S
         if tid is None or S is None:
+            # serial use (alone-runs' set-up, post-quiescence probes): a lock that a finished call
+            # left held would hang the harness for real - report it as that call's outcome instead
+            if blocking and timeout < 0:
+                if not self._real.acquire(True, 8.0):
+                    raise RuntimeError("selfies lock still held by a call that has returned")
+                return True
             return self._real.acquire(blocking, timeout)
         S.lock_ops += 1
         while self.owner is not None and not (self.reentrant and self.owner == tid):
